@@ -24,7 +24,9 @@ func runC04(c *Ctx) {
 	cfgs := []cfg{
 		{"nocache", BedOpts{UdpRcvBuf: 8 << 20}},
 		{"tinycache", BedOpts{UdpRcvBuf: 8 << 20, MemSize: 64 * 1024, Env: map[string]string{"VERIF_POINTS": "memcache.get=sleep(300us,20.0%)"}}},
-		{"bigcache", BedOpts{UdpRcvBuf: 8 << 20, MemSize: 64 << 20, Env: map[string]string{"VERIF_POOL_QUARANTINE": "0"}}},
+		// bigcache: buffers are recycled as in production - no quarantine, no random fill on Get - so a
+		// buffer still holds what its previous owner left in it
+		{"bigcache", BedOpts{UdpRcvBuf: 8 << 20, MemSize: 64 << 20, Env: map[string]string{"VERIF_POOL_QUARANTINE": "0", "VERIF_POOL_NOFILL": "1"}}},
 	}
 	workers, per := c.N(6, 12), c.N(250, 1200)
 	rounds := c.N(1, 4)
